@@ -21,24 +21,29 @@ DESIGN_REF = "DESIGN.md section 3, C02"
 U = "mtbl/reader.c"
 
 
-def key_vs_bound(call):
-    """+1 for bytes_compare(*key,*len_key, data(it->k), size(it->k)), -1 mirrored, 0 otherwise."""
-    a = [strip(x) for x in call_args(call)]
-    if len(a) != 4:
+def _role(v, pkey, plen):
+    """What an argument *value* stands for, whoever computes it (the function itself or a helper it was moved into)."""
+    t = strip_tags(APE.vstr(v))
+    if t == "*" + pkey:
+        return "key"
+    if t == "*" + plen:
+        return "len"
+    if re.match(r"^ubuf_data\(\w+->k\)$", t):
+        return "bound"
+    if re.match(r"^ubuf_(size|bytes)\(\w+->k\)$", t):
+        return "boundlen"
+    return None
+
+
+def key_vs_bound(ev, nxt):
+    """+1 for bytes_compare(*key,*len_key, data(it->k), size(it->k)), -1 mirrored, 0 otherwise; decided on the values."""
+    if len(ev.b) != 4:
         return 0
-
-    def out(p, l):
-        return (p["k"] == "UnaryOperator" and p.get("op") == "*" and strip(p["kids"][0]).get("dk") == "param" and strip(p["kids"][0])["idx"] == 1 and
-                l["k"] == "UnaryOperator" and l.get("op") == "*" and strip(l["kids"][0]).get("dk") == "param" and strip(l["kids"][0])["idx"] == 2)
-
-    def bound(p, l):
-        if not (is_call(p, "ubuf_data") and is_call(l, ("ubuf_size", "ubuf_bytes"))):
-            return False
-        x, y = strip(call_args(p)[0]), strip(call_args(l)[0])
-        return x["k"] == "MemberExpr" and x["field"] == "k" and y["k"] == "MemberExpr" and y["field"] == "k"
-    if out(a[0], a[1]) and bound(a[2], a[3]):
+    pkey, plen = nxt.params[1]["name"], nxt.params[2]["name"]
+    r = [_role(v, pkey, plen) for v in ev.b]
+    if r == ["key", "len", "bound", "boundlen"]:
         return 1
-    if bound(a[0], a[1]) and out(a[2], a[3]):
+    if r == ["bound", "boundlen", "key", "len"]:
         return -1
     return 0
 
@@ -75,7 +80,7 @@ def run(ctx, res):
         cmpc = None
         for e in evs:
             if e.a == "bytes_compare":
-                o = key_vs_bound(e.node)
+                o = key_vs_bound(e, nxt)
                 if o:
                     c = p.cons.get((APE.vstr(e.c), "#0"))
                     if c is not None:
@@ -103,16 +108,18 @@ def run(ctx, res):
         elif tag == "READER_ITER_TYPE_GET_PREFIX":
             lenrel = None
             mem = None
+            pkey, plen = nxt.params[1]["name"], nxt.params[2]["name"]
             for (a, b), v in p.cons.items():
-                if a.startswith("ubuf_size(it->k") and b.startswith("*len_key"):
+                ra, rb = _role(("s", a), pkey, plen), _role(("s", b), pkey, plen)
+                if ra == "boundlen" and rb == "len":
                     lenrel = v
-                elif b.startswith("ubuf_size(it->k") and a.startswith("*len_key"):
+                elif rb == "boundlen" and ra == "len":
                     lenrel = APE.mirror(v)
             for e in evs:
-                if e.a in ("memcmp", "bcmp"):
-                    aa = [canon(x) for x in call_args(e.node)]
-                    good_args = sorted(aa[:2]) == sorted(["ubuf_data(it->k)", "*key"]) and aa[2] in ("ubuf_size(it->k)", "ubuf_bytes(it->k)")
-                    mem = (p.cons.get((APE.vstr(e.c), "#0")), good_args, aa)
+                if e.a in ("memcmp", "bcmp") and len(e.b) == 3:
+                    rr = [_role(x, pkey, plen) for x in e.b]
+                    good_args = sorted(str(x) for x in rr[:2]) == ["bound", "key"] and rr[2] == "boundlen"
+                    mem = (p.cons.get((APE.vstr(e.c), "#0")), good_args, [strip_tags(APE.vstr(x)) for x in e.b])
             sig = site(nxt, "kind:%s:len%s:mem%s" % (tag, "".join(sorted(lenrel)) if lenrel else "-", "".join(sorted(mem[0])) if mem and mem[0] else "-"))
             if mem is not None and not mem[1]:
                 res.bad("C02.R1", sig, "PREFIX compares %s, expected (bound bytes, key bytes, bound length)" % mem[2], nxt.loc(nxt.body))
